@@ -59,6 +59,8 @@ func (r *recorder) add(kind, s string, n int) {
 
 type conn struct {
 	rec    *recorder
+	r      *runner
+	gen    int32 // serve cycle this connection was created for
 	sendMu sync.RWMutex // held (R) by the harness while it delivers a message, (W) by Close
 	mu     sync.Mutex
 	inCh   chan *nats.Msg
@@ -67,6 +69,15 @@ type conn struct {
 
 func (c *conn) Publish(subject string, payload []byte) error {
 	c.rec.add("conn-publish", subject, 0)
+	if c.r != nil {
+		if cur := atomic.LoadInt32(&c.r.curGen); c.gen < cur {
+			// every goroutine of the earlier cycle was joined before the later cycle's connection was created
+			c.r.violation(fmt.Sprintf("stale-conn: %s published on the connection of serve cycle %d while the service is being served on the connection of cycle %d", subject, c.gen, cur))
+		}
+		if subject == "system.reset" {
+			atomic.AddInt32(&c.r.resets[c.gen%8], 1)
+		}
+	}
 	c.mu.Lock()
 	defer c.mu.Unlock()
 	if c.closed {
@@ -77,6 +88,10 @@ func (c *conn) Publish(subject string, payload []byte) error {
 func (c *conn) PublishRequest(subject, reply string, data []byte) error { return nil }
 func (c *conn) ChanSubscribe(subject string, ch chan *nats.Msg) (*nats.Subscription, error) {
 	c.mu.Lock()
+	if c.closed {
+		c.mu.Unlock()
+		return nil, errors.New("connection closed") // like nats.ErrConnectionClosed
+	}
 	if c.inCh == nil {
 		c.inCh = ch
 	}
@@ -93,6 +108,11 @@ func (c *conn) Close() {
 	c.closed = true
 	c.mu.Unlock()
 	c.sendMu.Unlock()
+	if c.r != nil {
+		if f, _ := c.r.onConnClose.Load().(func()); f != nil {
+			f()
+		}
+	}
 }
 
 func (c *conn) isClosed() bool {
@@ -143,6 +163,9 @@ type runner struct {
 	scratch   map[string]*int // per-group memory written WITHOUT synchronisation by the callbacks (race-detector runs)
 	shutdowns int32
 	dfltCtr   int32
+	curGen    int32
+	resets    [8]int32     // system.reset messages seen per connection generation
+	onConnClose atomic.Value // func(), called at the end of conn.Close
 }
 
 func (r *runner) violation(what string) {
@@ -399,14 +422,13 @@ func (r *runner) run() bool {
 	verifhook.SetGate(r.gate)
 	verifhook.SetPerturb(sc.Perturb)
 	defer verifhook.SetPerturb(0)
-	c := &conn{rec: r.rec}
+	c := &conn{rec: r.rec, r: r}
 	s := r.newService(c)
 	r.s = s
 	for cyc := 0; cyc < sc.Cycles; cyc++ {
-		c.mu.Lock()
-		c.inCh = nil
-		c.closed = false
-		c.mu.Unlock()
+		// a fresh connection object per serve cycle: whatever the service publishes while served on it must go there
+		c = &conn{rec: r.rec, r: r, gen: int32(cyc)}
+		atomic.StoreInt32(&r.curGen, int32(cyc))
 		served := make(chan error, 1)
 		r.rec.add("cycle-begin", "", sc.Workers)
 		var startupWG sync.WaitGroup
@@ -426,7 +448,8 @@ func (r *runner) run() bool {
 				})
 			}
 		}
-		go func() { served <- s.Serve(c) }()
+		cc := c
+		go func() { served <- s.Serve(cc) }()
 		// wait for started
 		for i := 0; i < 2000; i++ {
 			c.mu.Lock()
@@ -441,6 +464,15 @@ func (r *runner) run() bool {
 		c.mu.Lock()
 		inCh := c.inCh
 		c.mu.Unlock()
+		if inCh != nil {
+			// serve() sends system.reset right after subscribing, before it starts listening: it must be on THIS connection
+			for i := 0; i < 2000 && atomic.LoadInt32(&r.resets[c.gen%8]) == 0; i++ {
+				time.Sleep(100 * time.Microsecond)
+			}
+			if atomic.LoadInt32(&r.resets[c.gen%8]) == 0 {
+				r.violation(fmt.Sprintf("no-reset: Serve (cycle %d) did not publish system.reset on the connection it was given", cyc))
+			}
+		}
 		var wg sync.WaitGroup
 		ok := true
 		switch sc.Kind {
@@ -600,6 +632,112 @@ func (r *runner) run() bool {
 			time.Sleep(60 * time.Millisecond) // the query event expires while the callback is held and Shutdown waits
 			close(release)
 			ok = <-shutDone
+		case "d8": // an in-flight callback uses the service (event, query event) after close() closed the connection, while
+			// Shutdown waits for it; the next cycle serves on a new connection and its events must appear there
+			g := sc.Groups[0]
+			if g == "" {
+				g = "g1"
+			}
+			emit := func(c1 int, during bool) {
+				inCb := make(chan struct{})
+				release := make(chan struct{})
+				r.pushSub(g, c1)
+				if err := s.With(fmt.Sprintf("svc.item.%d.%s", c1, g), func(rs res.Resource) {
+					r.rec.add("run", g, c1)
+					defer r.rec.add("ret", g, c1)
+					defer func() {
+						if v := recover(); v != nil {
+							r.violation(fmt.Sprintf("callback-panic: a callback in flight during Shutdown panicked using its resource: %v", v))
+						}
+					}()
+					close(inCb)
+					<-release
+					rs.Event("custom", map[string]int{"c": c1})
+					if during {
+						nils := 0
+						rs.QueryEvent(func(q res.QueryRequest) {
+							if q == nil {
+								nils++
+							}
+						})
+						if nils != 1 {
+							r.violation(fmt.Sprintf("query-nil: QueryEvent on a closed connection called back with nil %d times synchronously, expected once", nils))
+						}
+					}
+				}); err != nil {
+					r.violation("with-error: " + err.Error())
+				}
+				<-inCb
+				if during {
+					closed := make(chan struct{})
+					var once int32
+					r.onConnClose.Store(func() {
+						if atomic.CompareAndSwapInt32(&once, 0, 1) {
+							close(closed)
+						}
+					})
+					shutDone := make(chan bool, 1)
+					go func() { shutDone <- r.shutdown(s) }()
+					select {
+					case <-closed:
+					case <-time.After(3 * time.Second):
+					}
+					time.Sleep(time.Duration(sc.Seed%3) * time.Millisecond)
+					close(release)
+					ok = <-shutDone
+					r.onConnClose.Store((func())(nil))
+				} else {
+					close(release)
+					r.settle(2 * time.Second)
+				}
+			}
+			if cyc < sc.Cycles-1 {
+				emit(r.newCb(g), true)
+			} else {
+				emit(r.newCb(g), false)
+				for k := 0; k < 3; k++ {
+					r.submit(sc.Groups[k%len(sc.Groups)])
+				}
+				s.ResetAll()
+				r.settle(2 * time.Second)
+				if sc.Shutdown == "after" {
+					ok = r.shutdown(s)
+				}
+			}
+		case "burst": // several goroutines submit to the same IDLE group at the same instant (spin barrier), round after
+			// round on fresh groups: the lookup-or-create of a group's work item must be one atomic step
+			k := sc.Producers
+			rounds := sc.PerProd
+			arrived := make([]int32, rounds)
+			for p := 0; p < k; p++ {
+				p := p
+				r.safeGo(&wg, "WithGroup", func() {
+					for rd := 0; rd < rounds; rd++ {
+						g := fmt.Sprintf("b%d", rd)
+						if rd%4 == 3 {
+							g = sc.Groups[0] // now and then a long-lived group that goes idle and busy again
+							if g == "" {
+								g = "g1"
+							}
+						}
+						c := r.newCb(g)
+						r.pushSub(g, c)
+						atomic.AddInt32(&arrived[rd], 1)
+						for spin := 0; atomic.LoadInt32(&arrived[rd]) < int32(k) && spin < 2000000; spin++ {
+						}
+						if (p+rd)%2 == 0 {
+							s.WithGroup(g, func(*res.Service) { r.body(c, g, false) })
+						} else if err := s.With(fmt.Sprintf("svc.item.%d.%s", c, g), func(res.Resource) { r.body(c, g, false) }); err != nil {
+							r.violation("with-error: " + err.Error())
+						}
+					}
+				})
+			}
+			wg.Wait()
+			r.settle(3 * time.Second)
+			if cyc < sc.Cycles-1 || sc.Shutdown == "after" {
+				ok = r.shutdown(s)
+			}
 		case "stress": // many tiny callbacks of few groups from several producers: work items retire and are re-created constantly
 			for p := 0; p < sc.Producers; p++ {
 				p := p
@@ -1067,9 +1205,21 @@ func main() {
 			scs = append(scs, scenario{Kind: "stress", Workers: []int{1, 2, 4}[rng.Intn(3)], InCh: 1024, Producers: 3 + rng.Intn(4),
 				PerProd: 400, Groups: groupSets[rng.Intn(2)], Cycles: 1, Shutdown: "none", Seed: rng.Next() % 1000000})
 		}
+		nb := 3
+		if o.Tier == "thorough" {
+			nb = 30
+		}
+		for i := 0; i < nb; i++ {
+			scs = append(scs, scenario{Kind: "burst", Workers: []int{2, 4, 32}[rng.Intn(3)], InCh: 1024, Producers: 4 + rng.Intn(3),
+				PerProd: 250, Groups: []string{"g1"}, Cycles: 1, Shutdown: []string{"none", "after"}[rng.Intn(2)], Seed: rng.Next() % 1000000})
+		}
 		nd := 4
 		if o.Tier == "thorough" {
 			nd = 60
+		}
+		for i := 0; i < nd; i++ {
+			scs = append(scs, scenario{Kind: "d8", Workers: []int{1, 2, 32}[rng.Intn(3)], InCh: 1024, Groups: groupSets[rng.Intn(3)],
+				Cycles: 2 + rng.Intn(2), Shutdown: []string{"none", "after"}[rng.Intn(2)], Seed: rng.Next() % 1000000})
 		}
 		for i := 0; i < nd; i++ {
 			for _, k := range []string{"d1", "d2", "d3", "d4", "d5", "d6", "d7"} {
@@ -1113,7 +1263,7 @@ func main() {
 	}
 	hdr := "From stdpp Require Import gmap.\nFrom Coq Require Import NArith String.\nFrom GoRes Require Import Run.Run_" + runMod + ".\nLocal Open Scope string_scope."
 	Emit(o, *prop, hdr, "scase",
-		"real res.Service runs (worker counts 1/2/3/8/32, in-channel 1/2/1024, 1-6 producer goroutines using WithGroup incl. nested submissions from callbacks, requests through the in-channel incl. Parallel resources, publishers, 1-3 serve/shutdown cycles, shutdown after/during/none, seeded schedule perturbation at hook points) + directed schedules d1-d7 (enqueue after close-nil, publish after shutdown, append before re-lock, parked Signal, producers during parked close, ResetAll during Serve start-up, query expiry during Shutdown with a same-group callback in flight) + high-contention stress runs (thousands of tiny callbacks on 1-2 groups); one case = one run's label trace; non-trivial = a callback was appended to a live work item and >= 2 workers took work, or a directed schedule; distinct by trace",
+		"real res.Service runs (worker counts 1/2/3/8/32, in-channel 1/2/1024, 1-6 producer goroutines using WithGroup incl. nested submissions from callbacks, requests through the in-channel incl. Parallel resources, publishers, 1-3 serve/shutdown cycles, shutdown after/during/none, seeded schedule perturbation at hook points) + directed schedules d1-d8 (enqueue after close-nil, publish after shutdown, append before re-lock, parked Signal, producers during parked close, ResetAll during Serve start-up, query expiry during Shutdown with a same-group callback in flight, an in-flight callback emitting an event and a query event after the connection was closed followed by a serve cycle on a new connection) + simultaneous submissions to an idle group behind a spin barrier (burst) + high-contention stress runs (thousands of tiny callbacks on 1-2 groups); every serve cycle gets a fresh connection object and anything published on an earlier one is a violation; one case = one run's label trace; non-trivial = a callback was appended to a live work item and >= 2 workers took work, or a directed schedule; distinct by trace",
 		cases, dist, nil, impl, 40)
 	if len(impl) > 0 {
 		fmt.Fprintln(os.Stderr, "impl violations:", len(impl))
